@@ -166,6 +166,21 @@ theorem encode_one_read_back (P : Profile) (hwf : ProfileWF P = true) (arch : En
   subst hbs
   exact run_items P limit cont its fuel st st.n s tail (hfit st hd) hs hl rfl
 
+/-- **Message groups** (records, laps, events, …: every slice-valued container field): one
+    definition record with the union of the valid fields, then one data record per message, each
+    carrying exactly the declared bytes. `_partial`: the fit to the decoder's reading is shown under
+    the explicit hypothesis that the union has fewer than 256 fields (the count is one byte on the
+    wire; the profile's largest message has far fewer, but that bound on the union is not derived
+    here). -/
+theorem encode_group_self_describing_partial (P : Profile) (hwf : ProfileWF P = true) (arch : Endian)
+    (ms : List Msg) (bs : Bytes) (hne : ms ≠ []) (h : encodeGroup P arch ms = .ok bs) :
+    ∃ (d : DefMsg) (partss : List (List Bytes)),
+      bs = serialize (.defn d false :: partss.map fun parts => Item.data 0 parts []) ∧
+      partss.length = ms.length ∧
+      (d.fields.length < 256 → ∀ st : DecSt, 0 < st.defs.length →
+        ItemsFit P st (.defn d false :: partss.map fun parts => Item.data 0 parts [])) :=
+  encodeGroup_self_describing P hwf arch ms bs hne h
+
 /-- the hypotheses are satisfiable: the regenerated profile is well-formed and encodes a file_id
     message (kernel-evaluated) -/
 example : ProfileWF Gen.profile = true ∧
